@@ -22,6 +22,10 @@ CHECKS = [
         "Generated histories of session and object lifecycle calls over two tokens; every handle ever issued is recorded with what it denotes and probed after EVERY call (C_GetSessionInfo / C_GetObjectSize) for being alive exactly when the model says so; every issued handle value is checked against all earlier ones; after lifecycle calls the object views of the remaining sessions are compared with the model.",
         "C_GetObjectSize as liveness probe; at most the 200 most recent object handles are swept per step.",
         "model-based stateful PBT with per-step handle liveness sweep", "DESIGN.md 2/C11"),
+    chk("C12", "exploration",
+        "Generated operations over 46 mechanism specs (block, padded, stream, AEAD, MAC, digest, all asymmetric families, find) run once plainly and once under a generated per-call buffer policy (NULL size query, exact, 1 short, half, zero, oversized) with generated noise calls interleaved; judged on PKCS#11 state codes, byte-identical (or cross-verified) output, length bounds needed <= L <= input+buffered+block+tag / fixed size, canaries behind announced and reported length, and disappearance of finished/failed operations.",
+        "Update/Final on single-part-only mechanisms and single-part after Update are not generated (outcome not fixed by the statement); NULL arguments belong to C17.",
+        "metamorphic PBT (query transparency) + protocol-state oracle + canary buffers", "DESIGN.md 2/C12"),
     chk("C19", "exploration",
         "Generated populations (11 classes, token/session, private/public, two tokens) and generated templates drawn from the population (plus one-byte-shorter/longer and literal values, empty values, lacking attributes) searched in every login state with generated batch-size sequences; the union of all batches must equal a reference matcher over the model exactly.",
         "The model's attribute values come from C_GetAttributeValue right after each mutation (a different code path from the search matcher).",
